@@ -9,10 +9,14 @@ from .r_reg import BSE, Cases, World, fmt, windows
 from .r_reg_sup import different_grids, is_bool, is_grid_elem, is_val, same_window, spec_intersection, spec_union
 
 
+EXTENDED_FROM = 9
+
+
 def _ns(lo, hi, ns):
     """Grid sizes handled by this job: lo..hi, or the explicit subset ns."""
     full = range(lo, hi + 1)
-    return [n for n in full if ns is None or n in ns]
+    ext = [n for n in (ns or ()) if n > hi and n >= EXTENDED_FROM]   # threshold extension (r_reg.run_jobs), sparse windows
+    return [n for n in full if ns is None or n in ns] + ext
 
 
 # ------------------------------------------------------------------------------------------------
